@@ -347,7 +347,7 @@ def _inspect(obj, name, word_wrap):
 
     if is_function:
         ir["type"] = {"self": "self", "cls": "cls"}.get(
-            next(iter(sig.parameters.values())).name, "static"
+            next(iter(sig.parameters), None), "static"
         )
         parser = function
     else:
